@@ -37,6 +37,7 @@ func GetApparmorLogs(file io.Reader, profile string) []string {
 	isAppArmorLog := isAppArmorLogTemplate.Copy()
 	if profile != "" {
 		exp := `apparmor=("DENIED"|"ALLOWED"|"AUDIT")`
+		profile = regexp.QuoteMeta(profile)
 		exp = fmt.Sprintf(exp+`.* (profile="%s.*"|label="%s.*")`, profile, profile)
 		isAppArmorLog = regexp.MustCompile(exp)
 	}
